@@ -19,17 +19,17 @@ Proof.
 Qed.
 
 Lemma call_isin_arr labels blocks :
-  call "np.isin" [arrN labels; arrN blocks] = Some (Some (VA (map (fun x => VB (memb x blocks)) labels))).
+  call "np.isin" [VA (map vnat labels); VA (map vnat blocks)] = Some (Some (VA (map (fun x => VB (memb x blocks)) labels))).
 Proof.
-  unfold arrN. cbn -[isin_val map_opt]. rewrite (map_opt_map_some _ _ (fun x => VB (memb x blocks))).
+  cbn -[isin_val map_opt]. rewrite (map_opt_map_some _ _ (fun x => VB (memb x blocks))).
   - reflexivity.
   - intros x. apply isin_val_vnat.
 Qed.
 
 Lemma call_isin_int labels i :
-  call "np.isin" [arrN labels; vnat i] = Some (Some (VA (map (fun x => VB (Nat.eqb x i)) labels))).
+  call "np.isin" [VA (map vnat labels); vnat i] = Some (Some (VA (map (fun x => VB (Nat.eqb x i)) labels))).
 Proof.
-  unfold arrN. change (vnat i) with (VZ (Z.of_nat i)). cbn -[isin_val map_opt].
+  change (vnat i) with (VZ (Z.of_nat i)). cbn -[isin_val map_opt].
   rewrite (map_opt_map_some _ _ (fun x => VB (Nat.eqb x i))).
   - reflexivity.
   - intros x. change [VZ (Z.of_nat i)] with (map vnat [i]). rewrite isin_val_vnat. cbn [memb existsb].
@@ -137,3 +137,24 @@ Proof.
   change (has_Q (VL (map vnat l))) with (has_Q (VA (map vnat l))).
   destruct (rect (VA (map vnat l))); [|discriminate]. exact H.
 Qed.
+
+(** X[:, 0], X[:, 1] of a two-column array *)
+Definition xarr (pts : list (val * val)) : val := VA (map (fun p => VA [fst p; snd p]) pts).
+
+Lemma call_col0 pts : call "index[:,]" [xarr pts; VZ 0] = Some (Some (VA (map fst pts))).
+Proof.
+  unfold xarr. cbn -[map_opt]. rewrite (map_opt_map_some _ _ (fun p => Some (fst p))) by (intros x; reflexivity).
+  rewrite (map_opt_map_some _ _ (fun p : val * val => fst p)) by (intros x; reflexivity). reflexivity.
+Qed.
+
+Lemma call_col1 pts : call "index[:,]" [xarr pts; VZ 1] = Some (Some (VA (map snd pts))).
+Proof.
+  unfold xarr. cbn -[map_opt]. rewrite (map_opt_map_some _ _ (fun p => Some (snd p))) by (intros x; reflexivity).
+  rewrite (map_opt_map_some _ _ (fun p : val * val => snd p)) by (intros x; reflexivity). reflexivity.
+Qed.
+
+Lemma call_size_arrN l : call "attr:size" [VA (map vnat l)] = Some (Some (vnat (List.length l))).
+Proof. cbn -[all_scalar]. rewrite all_scalar_vnat, map_length. reflexivity. Qed.
+
+Lemma call_arange_nat n : call "np.arange" [vnat n] = Some (Some (arrN (seq 0 n))).
+Proof. unfold vnat. cbn -[seq Z.to_nat]. rewrite Nat2Z.id. reflexivity. Qed.
